@@ -13,6 +13,20 @@ APPSESSION = "autobahn.wamp.protocol.ApplicationSession"
 BASESESSION = "autobahn.wamp.protocol.BaseSession"
 
 
+def _plain_read(e):
+    if isinstance(e, ast.Constant):
+        return False  # constants are handled by the resolver
+    if isinstance(e, ast.Name):
+        return True
+    if isinstance(e, ast.Attribute):
+        return _plain_read(e.value) or isinstance(e.value, ast.Name)
+    if isinstance(e, ast.Call) and isinstance(e.func, ast.Name) and e.func.id == "len" and len(e.args) == 1 and not e.keywords:
+        return _plain_read(e.args[0])
+    if isinstance(e, ast.BinOp):
+        return all(_plain_read(x) or isinstance(x, ast.Constant) for x in (e.left, e.right))
+    return False
+
+
 class Analysis:
     """Memoised per-function CFG + must-facts with effect-aware kills."""
 
@@ -30,7 +44,10 @@ class Analysis:
             g = CFG(fn.node)
             res = norm.Resolver(self.p, fn.module, fn.cls)
             try:
-                bd = {n: e for n, e in local_canon(fn).items() if isinstance(e, (ast.Compare, ast.BoolOp)) or (isinstance(e, ast.UnaryOp) and isinstance(e.op, ast.Not))}
+                # single-definition locals naming a boolean expression or a plain read (attribute chain, len(), arithmetic of those): a test
+                # that mentions the local also establishes the same fact about the expression it names
+                bd = {n: e for n, e in local_canon(fn).items() if isinstance(e, (ast.Compare, ast.BoolOp)) or (isinstance(e, ast.UnaryOp) and isinstance(e.op, ast.Not))
+                      or _plain_read(e)}
             except Exception:
                 bd = {}
             mf = MustFacts(g, call_writes=self.effects.call_writes_fn(fn), entry_facts=entry_facts, resolver=res, bool_defs=bd)
@@ -318,3 +335,104 @@ def name_for(fn, canonical, canon=None):
         if t == canonical:
             return n
     return canonical
+
+
+def module_level_names(fn):
+    """names the function reads that are module-level functions / classes / imports (never assigned in the function): opaque objects for Tiny"""
+    from ..core.tiny import Sym
+    stored = {x.id for x in ast.walk(fn.node) if isinstance(x, ast.Name) and isinstance(x.ctx, (ast.Store, ast.Del))} | set(fn.params())
+    stored |= {x.name for x in ast.walk(fn.node) if isinstance(x, (ast.FunctionDef, ast.AsyncFunctionDef, ast.ClassDef)) and x is not fn.node}
+    m = fn.module
+    out = {}
+    for x in ast.walk(fn.node):
+        if isinstance(x, ast.Name) and isinstance(x.ctx, ast.Load) and x.id not in stored and (x.id in m.funcs or x.id in m.classes or x.id in m.imports):
+            out[x.id] = Sym(f"<{x.id}>")
+    return out
+
+
+def rule_decorated_object(ctx, rule_id, api, helper, selector, default_by_type):
+    """ApplicationSession.subscribe(obj) / register(obj): every decorated method of the object is handed to the request helper with ITS OWN
+    options (the pattern's, else the ones given to the call, else -- subscribe only -- a default chosen by the pattern's URI type), its own
+    URI and type-check flag, in member order.  Decided cell-wise over objects with several decorated members and every mix of
+    own/absent options; a value computed for one member must not reach another one."""
+    import itertools
+    from ..core.tiny import Tiny, Sym, TinyRaise
+    from ..core.index import AnalysisError
+    ctx.rule(rule_id)
+    fn = ctx.program.func(f"{APPSESSION}.{api}")
+    ctx.analysed(fn)
+    prm = fn.params()
+    body = [x for x in fn.node.body if not (isinstance(x, ast.Expr) and isinstance(x.value, ast.Constant))]
+    probs, cells = [], 0
+    WILD, EXACT = "uri-type-wildcard", "uri-type-exact"
+    try:
+        for given, layout in itertools.product((None, "given"), itertools.product((None, "own"), repeat=4)):
+            for types_ in ((EXACT, WILD, EXACT, WILD), (WILD, EXACT, EXACT, EXACT)):
+                cells += 1
+                calls = []
+                session_opts = Sym("options-given-to-the-call") if given else None
+                pats, want = [], []
+                obj = Sym("decorated-object")
+                members = []
+                for mi in range(2):
+                    proc = Sym(f"method-{mi}")
+                    plist = []
+                    for pi in range(2):
+                        k = mi * 2 + pi
+                        own = Sym(f"options-of-pattern-{k}") if layout[k] else None
+                        pat = Sym(f"pattern-{k}", methods={selector: (lambda: True), "uri": (lambda k=k: f"com.uri.{k}"),
+                                                            "is_handler": (lambda: selector == "is_handler"), "is_endpoint": (lambda: selector == "is_endpoint")},
+                                  options=own, uri_type=types_[k], _check_types=Sym(f"check-types-{k}"))
+                        plist.append(pat)
+                        exp = own if own is not None else session_opts
+                        if exp is None and default_by_type:
+                            exp = ("default", "wildcard" if types_[k] == WILD else "exact")
+                        want.append((obj, proc, f"com.uri.{k}", exp, pat.attrs["_check_types"]))
+                    # a pattern of the other kind must be skipped
+                    other = Sym(f"foreign-pattern-{mi}", methods={"is_handler": (lambda: False), "is_endpoint": (lambda: False), "uri": (lambda: "com.foreign")},
+                                options=None, uri_type=EXACT, _check_types=None)
+                    proc.attrs["__dict__"] = {"_wampuris": plist[:1] + [other] + plist[1:]}
+                    members.append([f"name{mi}", proc])
+                plain = Sym("undecorated-method")
+                plain.attrs["__dict__"] = {}
+                members.insert(1, ["plain", plain])
+
+                def default(f_, a_, k_=None):
+                    if f_ == helper:
+                        calls.append(tuple(a_))
+                        return Sym(f"pending-{len(calls)}")
+                    if f_ == "callable":
+                        return False
+                    if f_ == "inspect.getmembers":
+                        return [list(m_) for m_ in members]
+                    if f_.endswith("SubscribeOptions") or f_.endswith("RegisterOptions"):
+                        return ("default", (k_ or {}).get("match"))
+                    return Sym(f"<{f_}>")
+                obj.attrs["__class__"] = Sym("class-of-the-object")
+                env = dict(module_level_names(fn))
+                env.update({"self": Sym("session"), "self._transport": Sym("transport"), prm[1]: obj, "uri.Pattern.URI_TYPE_WILDCARD": WILD, "uri.Pattern.URI_TYPE_EXACT": EXACT})
+                for p_ in prm[2:]:
+                    env[p_] = None
+                # the options parameter: the one forwarded to the helper in the single-callable form
+                env["options"] = session_opts if "options" in prm else None
+                t = Tiny(env, default_call=default, opaque_globals=True)
+                r = t.run(body)
+                got = [c for c in calls]
+                desc = f"options to the call {'given' if given else 'absent'}, own options of the four patterns {['own' if x else 'none' for x in layout]}, URI types {['wildcard' if x == WILD else 'exact' for x in types_]}"
+                if r[0] not in ("return",):
+                    probs.append(f"{desc}: {r[0]} {str(r[1])[:60]}")
+                elif len(got) != len(want):
+                    probs.append(f"{desc}: {len(got)} requests for 4 decorated patterns")
+                else:
+                    for i, (g_, w_) in enumerate(zip(got, want)):
+                        if len(g_) != 5 or g_[0] is not w_[0] or g_[1] is not w_[1] or g_[2] != w_[2] or g_[4] is not w_[4]:
+                            probs.append(f"{desc}: request {i} is for {g_[:3]}, expected {w_[:3]} with its own type-check flag")
+                            break
+                        same = (g_[3] is w_[3]) or (isinstance(w_[3], tuple) and g_[3] == w_[3])
+                        if not same:
+                            probs.append(f"{desc}: pattern {i} is requested with {g_[3]}, expected {w_[3]}")
+                            break
+        ctx.ob(f"{api}(obj): each decorated method is requested with its own URI, options and type-check flag, in member order [{cells} cells]", not probs,
+               "; ".join(probs[:2]), fn.loc())
+    except AnalysisError as e:
+        raise AnalysisError(f"[{rule_id}] {api}() outside the modelled subset: {e}")
